@@ -20,9 +20,9 @@ PID = 'C16'
 LEVEL = 'exploration'
 BUDGET = {'quick': 96, 'thorough': 4000}
 CAP_S = {'quick': 220, 'thorough': 3000}
-RULE = ('two case families. history: a scratch package (4 modules: annotated functions, a class, a pre-decorated function, a violating '
+RULE = ('two case families. history: a scratch package (4 modules: annotated functions, a class, a pre-decorated function, a class replaced by a factory decorator, a violating '
         'module-level annotated assignment) + a sequence of 2-5 interpreter runs, each with a hook setting from {off, default, '
-        'claw_is_pep526=False, FIRST decorator placement, violation_type=UserWarning, violation_type=ValueError} and optional source edits '
+        'claw_is_pep526=False, FIRST decorator placement (both / types only / functions only), violation_type=UserWarning, violation_type=ValueError} and optional source edits '
         'between runs (comment appended / annotation changed, mtime advanced by 2 s). Oracle: fingerprint (import outcomes and probe-call '
         'verdicts) of the last run == fingerprint of the same setting after deleting every __pycache__; file invariant after every run. '
         'threads: hook setting x schedule (list of run lengths) for two threads importing a hooked and an unhooked module concurrently in '
@@ -34,7 +34,8 @@ ASSUMPTIONS = [
     'child interpreters run with PYTHONDONTWRITEBYTECODE unset and PYTHONHASHSEED=0',
 ]
 
-HOOKS = ['off', 'default', 'pep526off', 'place_first', 'viol_warn', 'viol_value']
+_CALIBRATION = {}
+HOOKS = ['off', 'default', 'pep526off', 'place_first', 'type_first', 'func_first', 'viol_warn', 'viol_value']
 CHILD = os.path.join(os.path.dirname(os.path.dirname(os.path.abspath(__file__))), 'c16_child.py')
 
 MOD_A = '''import functools
@@ -54,6 +55,16 @@ class K:
 @userdeco
 def deco_f(x: int) -> int:
     return x
+
+def as_factory(cls):
+    def make(*a, **k):
+        return cls(*a, **k)
+    return make
+
+@as_factory
+class P:
+    def __init__(self, x: int) -> None:
+        self.x = x
 '''
 MOD_B = '''from c16pkg import mod_a
 def g(x: int) -> int:
@@ -148,18 +159,26 @@ def rm_pycache(root):
 @st.composite
 def _history(draw, tier):
     n = draw(st.integers(2, 5 if tier == 'thorough' else 4))
+    # each history alternates between two or three settings so that a setting meets bytecode cached under each other one
+    pool = draw(st.lists(st.sampled_from(HOOKS), min_size=2, max_size=3, unique=True))
+    hooked = [h for h in pool if h != 'off']
     runs = []
     for i in range(n):
-        runs.append({'hook': draw(st.sampled_from(HOOKS)),
+        # the last run is a hooked one (an unhooked last run only checks that hooked bytecode is not picked up) four times out of five
+        last_pool = hooked * 4 + (['off'] if 'off' in pool else [])
+        runs.append({'hook': draw(st.sampled_from(pool if i < n - 1 else last_pool)),
                      'edit': draw(st.sampled_from(['none', 'none', 'comment', 'annotation'])) if i else 'none'})
     return {'family': 'history', 'runs': runs}
 
 
 @st.composite
 def _threads(draw, tier):
+    # the first run length is a fraction of the number of yield points the first thread needs on its own (calibrated once per
+    # worker and hook setting), so that the preemption lands inside its import
     return {'family': 'threads', 'hook': draw(st.sampled_from(['default', 'pep526off', 'viol_warn'])),
-            'hooked_first': draw(st.booleans()),
-            'schedule': draw(st.lists(st.one_of(st.integers(0, 60), st.integers(0, 600), st.integers(0, 6000)), min_size=1, max_size=4))}
+            'hooked_first': draw(st.sampled_from([True, True, True, False])),
+            'first_fraction': draw(st.integers(0, 1000)),
+            'schedule': draw(st.lists(st.one_of(st.integers(0, 60), st.integers(0, 600), st.integers(0, 6000)), min_size=0, max_size=3))}
 
 
 def strategy(tier):
@@ -189,7 +208,20 @@ def run_case(case):
     try:
         write_tree(root)
         if case['family'] == 'threads':
-            out, p = child({'root': root, 'hook': case['hook'], 'mode': 'threads', 'schedule': case['schedule'],
+            key = (case['hook'], case['hooked_first'])
+            if key not in _CALIBRATION:
+                cal_root = tempfile.mkdtemp(prefix='c16cal_', dir=os.environ.get('TMPDIR') or '/tmp')
+                try:
+                    write_tree(cal_root)
+                    cal, _p = child({'root': cal_root, 'hook': case['hook'], 'mode': 'threads', 'schedule': [10 ** 9],
+                                     'hooked_first': case['hooked_first']})
+                    _CALIBRATION[key] = cal['per_thread'][0] if cal and not cal['timeout'] else 2000
+                finally:
+                    shutil.rmtree(cal_root, ignore_errors=True)
+            n0 = _CALIBRATION[key]
+            schedule = [case.get('first_fraction', 500) * n0 // 1000] + list(case['schedule'])
+            case = dict(case, schedule=schedule)
+            out, p = child({'root': root, 'hook': case['hook'], 'mode': 'threads', 'schedule': schedule,
                             'hooked_first': case['hooked_first']})
             evals = 1
             if out is None:
